@@ -21,6 +21,9 @@ RULES = {
     "R06.7": "the group answers the snapshot read truthfully: Member{addr, at_height: Some(h)} of cw4-group and cw4-stake answers "
              "may_load_at_height(MEMBERS, addr, h) with the caller's h (shared with C09 R09.3) - the flex multisig's ballot weights are "
              "exactly these answers",
+    "R06.8": "the total a group-backed proposal is measured against is the sum of the voters' weights of the same snapshot: both "
+             "group contracts keep TOTAL = sum of MEMBERS on every membership write, at the height of the write (shared with "
+             "C09 R09.1 / R09.2)",
     "R06.6": "frozen membership (fixed): nothing writes VOTERS or CONFIG outside instantiate",
 }
 
@@ -128,6 +131,17 @@ def run(ctx):
         if o.rule == "R09.3" and "query/Member" in o.key:
             ctx.ob("R06.7", o.key, True if o.status == "discharged" else (None if o.status == "undecided" else False),
                    detail="; ".join(o.details), sites=o.sites, sample=o.sample)
+    # R06.8: the total the flex multisig copies into Proposal.total_weight is the group's TOTAL; it equals the sum of the
+    # member weights of the same snapshot exactly when the group keeps TOTAL = sum(MEMBERS) on every write (C09 R09.1/R09.2)
+    sub2 = type(ctx)(ctx.pid, ctx.facts, ctx.engine, ctx.tier, ctx.tree_hash)
+    it9 = C09.items(sub2)
+    C09.check_group(sub2, it9)
+    C09.check_stake(sub2, it9)
+    for k in sub2.order:
+        o = sub2.obs[k]
+        if o.rule in ("R09.1", "R09.2") and not o.key.startswith(("anchor", "floor")):
+            ctx.ob("R06.8", o.key, True if o.status == "discharged" else (None if o.status == "undecided" else False),
+                   detail="; ".join(o.details), sites=o.sites, sample=o.sample, trivial=o.trivial)
     # R06.6
     eps = entry_points(ctx.facts, "cw3_fixed_multisig")
     for name, fn in sorted(eps.items()):
